@@ -474,6 +474,11 @@ func (c *c06Case) decodeMsgK(data []byte, allowEmptyKey, strict bool) (class str
 	ut := "0"
 	if kvp.UpdateTimeMillis != 0 {
 		ut = strconv.FormatInt(kvp.UpdateTimeMillis-c.base*1000, 10)
+		// "0" is reserved for the zero time: an update time that is not expressible relative to the base
+		// (exactly the base, or before the Unix epoch where time.UnixMilli may hit the zero time) is not delivered
+		if strict && (ut == "0" || kvp.UpdateTimeMillis < 0) {
+			return "odd", ""
+		}
 	}
 	if strict && (!c06CleanName(kvp.Key) || !c06CleanVal(v, c.base)) {
 		return "odd", ""
@@ -899,7 +904,14 @@ func (c *c06Case) scriptPrefixDrop() {
 		pr = pick(r, []pair{{"r1", "i1", "i10"}, {"r1", "i1", "i1-0"}, {"r2", "i1", "i10"}})
 	}
 	wr := func(name string) string {
-		d, _ := c.nextDelta(pr.key + name)
+		// the same per-entry counters as genRingOps / genPartOps (one content per (entry, timestamp))
+		ck := pr.key + name
+		if part && name[0] == 'o' {
+			ck = pr.key + "o" + name
+		} else if part {
+			ck = pr.key + "p" + name
+		}
+		d, _ := c.nextDelta(ck)
 		switch {
 		case !part:
 			return "hb:" + name + ":" + itoa(d) + ":" + stateCode[pick(r, c06States)] + ":" + itoa(1+r.intn(15))
